@@ -96,6 +96,15 @@ TraceOwn == /\ WellFormed(raw)
             /\ c.m.serial = ser.start /\ ser.start # 0
             /\ ser.after = ser.start + 1
 
+(* a message the bus forwarded (raw) for an originator whose true unique name is c.sender and who sent
+   c.orig: well-formed, and unchanged except that SENDER is the true name whatever the originator wrote *)
+TraceForward == /\ WellFormed(raw)
+                /\ LET a == Recovered(c.orig)
+                       b == Recovered(raw)
+                   IN b = [a EXCEPT !.fields = {f \in a.fields : f[1] # 7} \cup {<<7, <<"s">>, c.sender>>}]
+(* a message the bus produced itself *)
+TraceWellFormed == WellFormed(raw)
+
 (* size limit: construction succeeds exactly when the serialised length is within the limit *)
 TraceLimit == ser.accepted <=> (ser.rawlen <= ser.limit)
 
